@@ -2,6 +2,7 @@
 S6: the ring-buffer window (`dictDecoder`) refines an append-only LZ77 output.
 -/
 import Compress.Window
+import Compress.Proofs.WindowCopy
 
 namespace Compress.Proofs.Window
 open Compress.Window
@@ -15,6 +16,187 @@ def Legal (size : Nat) : List UInt8 → List Op → Prop
   | out, .bytes bs :: ops => Legal size (out ++ bs) ops
   | out, .copy d l :: ops => 0 < d ∧ d ≤ min size out.length ∧ Legal size (specCopy out d l) ops
 
+/-! ### the drivers -/
+
+/-- a copy, continued across flushes. -/
+theorem runCopy_spec (useTry : Bool) (size dist : Nat) (hd : 0 < dist) :
+    ∀ (fuel : Nat) (d : Dict) (len : Nat) (out acc : List UInt8), Inv size d out acc →
+    dist ≤ min size out.length →
+    (len + 2 ≤ fuel ∨ (d.wrPos < d.hist.size ∧ len + 1 ≤ fuel)) →
+    Inv size (runCopy useTry fuel d dist len acc).1 (specCopy out dist len)
+      (runCopy useTry fuel d dist len acc).2 := by
+  intro fuel
+  induction fuel with
+  | zero => intro d len out acc _ _ hf; omega
+  | succ fuel ih =>
+    intro d len out acc I hdl hf
+    unfold runCopy
+    by_cases h0 : len = 0
+    · subst h0
+      rw [if_pos rfl]
+      exact I
+    · rw [if_neg h0, try_eq_writeCopy]
+      obtain ⟨hn, I1⟩ := I.writeCopy dist len hd hdl
+      generalize d.writeCopy dist len = p at hn I1
+      obtain ⟨d1, n⟩ := p
+      simp only at hn I1 ⊢
+      rw [← hn] at I1
+      by_cases h1 : len - n > 0
+      · rw [if_pos h1]
+        obtain ⟨I2, hav, _⟩ := I1.readFlush
+        generalize d1.readFlush = q at I2 hav
+        obtain ⟨d2, fl⟩ := q
+        simp only at I2 hav ⊢
+        have hlen : len = n + (len - n) := by omega
+        have hgoal := ih d2 (len - n) (specCopy out dist n) (acc ++ fl) I2
+          (by rw [specCopy_length]; omega)
+          (by
+            right
+            refine ⟨hav, ?_⟩
+            simp only [Dict.availSize] at hn
+            rcases hf with hf | hf <;> omega)
+        rw [← specCopy_add, ← hlen] at hgoal
+        exact hgoal
+      · rw [if_neg h1]
+        have : n = len := by omega
+        rw [this] at I1
+        exact I1
+
+/-- raw bytes, continued across flushes. -/
+theorem runBytes_spec (size : Nat) :
+    ∀ (fuel : Nat) (d : Dict) (bs : List UInt8) (out acc : List UInt8), Inv size d out acc →
+    bs.length ≤ fuel →
+    Inv size (runBytes fuel d bs acc).1 (out ++ bs) (runBytes fuel d bs acc).2 := by
+  intro fuel
+  induction fuel with
+  | zero =>
+    intro d bs out acc I hf
+    have : bs = [] := List.eq_nil_of_length_eq_zero (by omega)
+    subst this
+    simpa [runBytes] using I
+  | succ fuel ih =>
+    intro d bs out acc I hf
+    unfold runBytes
+    by_cases h0 : bs.isEmpty = true
+    · rw [if_pos h0]
+      have : bs = [] := by simpa using h0
+      subst this
+      simpa using I
+    · rw [if_neg h0]
+      have hne : bs ≠ [] := by simpa using h0
+      have hpos : 0 < bs.length := List.length_pos_iff.mpr hne
+      -- the optional flush
+      have hfl : Inv size (if d.availSize = 0 then d.readFlush else (d, [])).1 out
+            (acc ++ (if d.availSize = 0 then d.readFlush else (d, [])).2) ∧
+          (if d.availSize = 0 then d.readFlush else (d, [])).1.wrPos <
+            (if d.availSize = 0 then d.readFlush else (d, [])).1.hist.size := by
+        by_cases ha : d.availSize = 0
+        · rw [if_pos ha]
+          exact ⟨I.readFlush.1, I.readFlush.2.1⟩
+        · rw [if_neg ha]
+          simp only [Dict.availSize] at ha
+          refine ⟨by simpa using I, by simp only; omega⟩
+      generalize (if d.availSize = 0 then d.readFlush else (d, [])) = q at hfl
+      obtain ⟨d0, fl0⟩ := q
+      obtain ⟨I0, hav⟩ := hfl
+      simp only at I0 hav ⊢
+      obtain ⟨hn, I1⟩ := I0.writeBytes bs
+      generalize d0.writeBytes bs = p at hn I1
+      obtain ⟨d1, n⟩ := p
+      simp only at hn I1 ⊢
+      rw [← hn] at I1
+      have hn1 : 1 ≤ n := by simp only [Dict.availSize] at hn; omega
+      have hgoal := ih d1 (bs.drop n) (out ++ bs.take n) (acc ++ fl0) I1
+        (by rw [List.length_drop]; omega)
+      rw [List.append_assoc, List.take_append_drop] at hgoal
+      exact hgoal
+
+theorem runBytes_acc : ∀ (fuel : Nat) (d : Dict) (bs acc : List UInt8),
+    runBytes fuel d bs acc = ((runBytes fuel d bs []).1, acc ++ (runBytes fuel d bs []).2) := by
+  intro fuel
+  induction fuel with
+  | zero => intro d bs acc; simp [runBytes]
+  | succ fuel ih =>
+    intro d bs acc
+    unfold runBytes
+    by_cases h0 : bs.isEmpty = true
+    · rw [if_pos h0, if_pos h0]; simp
+    · rw [if_neg h0, if_neg h0]
+      simp only
+      rw [ih _ _ (acc ++ _), ih _ _ ([] ++ _)]
+      simp [List.append_assoc]
+
+theorem runCopy_acc (useTry : Bool) : ∀ (fuel : Nat) (d : Dict) (dist len : Nat) (acc : List UInt8),
+    runCopy useTry fuel d dist len acc =
+      ((runCopy useTry fuel d dist len []).1, acc ++ (runCopy useTry fuel d dist len []).2) := by
+  intro fuel
+  induction fuel with
+  | zero => intro d dist len acc; simp [runCopy]
+  | succ fuel ih =>
+    intro d dist len acc
+    unfold runCopy
+    by_cases h0 : len = 0
+    · rw [if_pos h0, if_pos h0]; simp
+    · rw [if_neg h0, if_neg h0, try_eq_writeCopy]
+      generalize d.writeCopy dist len = p
+      obtain ⟨d1, n⟩ := p
+      simp only
+      by_cases h1 : len - n > 0
+      · rw [if_pos h1, if_pos h1]
+        rw [ih _ _ _ (acc ++ _), ih _ _ _ ([] ++ _)]
+        simp [List.append_assoc]
+      · rw [if_neg h1, if_neg h1]; simp
+
+theorem runOp_spec (useTry : Bool) (size : Nat) (d : Dict) (op : Op) (out acc : List UInt8)
+    (I : Inv size d out acc) (hl : Legal size out [op]) :
+    Inv size (runOp useTry d op).1 (specRun out [op]) (acc ++ (runOp useTry d op).2) := by
+  cases op with
+  | byte c =>
+    simp only [runOp, specRun]
+    by_cases ha : d.availSize = 0
+    · rw [if_pos ha]
+      obtain ⟨I1, hav, _⟩ := I.readFlush
+      exact I1.writeByte c hav
+    · rw [if_neg ha]
+      simp only [Dict.availSize] at ha
+      simp only [List.append_nil]
+      exact I.writeByte c (by have := I.wr_le; omega)
+  | bytes bs =>
+    simp only [runOp, specRun]
+    have := runBytes_spec size (bs.length + 2) d bs out acc I (by omega)
+    rw [runBytes_acc] at this
+    exact this
+  | copy dist len =>
+    simp only [runOp, specRun]
+    have := runCopy_spec useTry size dist hl.1 (len + 2) d len out acc I hl.2.1 (Or.inl (by omega))
+    rw [runCopy_acc] at this
+    exact this
+
+theorem runOps_spec (useTry : Bool) (size : Nat) :
+    ∀ (ops : List Op) (d : Dict) (out acc : List UInt8), Inv size d out acc → Legal size out ops →
+    Inv size (runOps useTry d ops acc).1 (specRun out ops) (runOps useTry d ops acc).2 := by
+  intro ops
+  induction ops with
+  | nil => intro d out acc I _; exact I
+  | cons op ops ih =>
+    intro d out acc I hl
+    unfold runOps
+    simp only
+    have h1 : Legal size out [op] := by
+      cases op <;> simp_all [Legal]
+    have h2 : Legal size (specRun out [op]) ops ∧ specRun out (op :: ops) = specRun (specRun out [op]) ops := by
+      cases op <;> simp_all [Legal, specRun]
+    rw [h2.2]
+    exact ih _ _ _ (runOp_spec useTry size d op out acc I h1) h2.1
+
+theorem runAll_spec (useTry : Bool) (size prevCap : Nat) (hs : 1 ≤ size) (ops : List Op)
+    (hl : Legal size [] ops) :
+    Inv size (runAll useTry size prevCap ops).2 (specRun [] ops) (runAll useTry size prevCap ops).1 ∧
+    (runAll useTry size prevCap ops).2.rdPos = (runAll useTry size prevCap ops).2.wrPos := by
+  have I := runOps_spec useTry size ops _ [] [] (Inv.init size prevCap hs) hl
+  have := I.readFlush
+  exact ⟨this.1, this.2.2⟩
+
 /-- **Window refinement.** For every window size ≥ 1, whatever capacity an
     earlier use left behind, and every legal sequence of literals, raw writes and
     copies (any lengths, so any number of flushes, growth steps and wrap-arounds in
@@ -23,13 +205,28 @@ def Legal (size : Nat) : List UInt8 → List Op → Prop
 theorem window_refines (useTry : Bool) (size prevCap : Nat) (hs : 1 ≤ size) (ops : List Op)
     (hl : Legal size [] ops) :
     (runAll useTry size prevCap ops).1 = specRun [] ops := by
-  sorry
+  obtain ⟨I, hrd⟩ := runAll_spec useTry size prevCap hs ops hl
+  have := I.acc_eq
+  rw [hrd, Nat.sub_self, Nat.sub_zero, List.take_length] at this
+  exact this
 
 /-- `HistSize` is the output length capped by the window size (checked at the end of any legal run). -/
 theorem histSize_eq (useTry : Bool) (size prevCap : Nat) (hs : 1 ≤ size) (ops : List Op)
     (hl : Legal size [] ops) :
     (runOps useTry (Dict.init size prevCap) ops []).1.histSize = min size (specRun [] ops).length := by
-  sorry
+  have I := runOps_spec useTry size ops _ [] [] (Inv.init size prevCap hs) hl
+  generalize (runOps useTry (Dict.init size prevCap) ops []).1 = d at I
+  unfold Dict.histSize
+  cases hf : d.full
+  · have h1 := I.nfull hf
+    have h2 := I.wr_le
+    have h3 := I.hsz
+    simp only [Bool.false_eq_true, if_false]
+    omega
+  · have h1 := I.full_sz hf
+    have h2 := I.dsize
+    simp only [if_true]
+    omega
 
 /-- **Lazy growth.** Every buffer the window allocates is at most
     `max 4096 (min size (4 * output length))`: memory follows the data actually
@@ -38,6 +235,7 @@ theorem allocs_bounded (useTry : Bool) (size : Nat) (hs : 1 ≤ size) (ops : Lis
     (hl : Legal size [] ops) :
     ∀ a ∈ (runAll useTry size 0 ops).2.allocs,
       a ≤ max initSize (min size (growFactor * (specRun [] ops).length)) := by
-  sorry
+  obtain ⟨I, _⟩ := runAll_spec useTry size 0 hs ops hl
+  exact I.allocs
 
 end Compress.Proofs.Window
